@@ -243,12 +243,16 @@ LABEL_CLASSES = {
     "near16": (65530, 65535),
     "over16": (65536, 70000),
     "near24": (2**24 - 8, 2**24 - 1),
+    "mult256": None,  # values whose low byte / low 16 bits are zero
 }
+MULT256 = [256, 512, 768, 1024, 65536, 131072, 65536 + 256]
 
 
 @st.composite
 def label_value(draw, classes=("small", "near8", "over8", "near16", "over16")):
     c = draw(st.sampled_from(list(classes)))
+    if c == "mult256":
+        return draw(st.sampled_from(MULT256))
     lo, hi = LABEL_CLASSES[c]
     return draw(st.integers(lo, hi))
 
